@@ -438,42 +438,6 @@ func experiment(c *Ctx, dir string, sc scenario, cs *crashSpec, tag string) (*ob
 			}
 		}()
 	}
-	if len(held) > 0 {
-		// let the runner go on the moment the new daemon has marked the unit (its monitor starts
-		// right after), at the latest when the daemon is up
-		relDone := make(chan struct{})
-		defer func() { <-relDone }()
-		go func() {
-			defer close(relDone)
-			for t0 := time.Now(); time.Since(t0) < 30*time.Second; time.Sleep(3 * time.Millisecond) {
-				b, _ := os.ReadFile(filepath.Join(unitDir, "status"))
-				if bytes.Contains(b, []byte("Pending at restart")) || bytes.Contains(b, []byte("Failed to restart")) {
-					break
-				}
-				select {
-				case <-daemonUp: // the new daemon has processed its configuration: the unit has been scanned
-					t0 = time.Now().Add(-time.Hour)
-				default:
-				}
-			}
-			release()
-			// the runner is on again: how long until it rewrites the record?  (The restarted daemon's
-			// monitor gives a unit it has just marked failed one second; a runner that an overloaded
-			// machine schedules later than that is another situation than the one this run is about.)
-			tMark := time.Now()
-			mark, _ := os.ReadFile(filepath.Join(unitDir, "status"))
-			for time.Since(tMark) < 5*time.Second {
-				b, _ := os.ReadFile(filepath.Join(unitDir, "status"))
-				if len(b) > 0 && !bytes.Equal(b, mark) {
-					break
-				}
-				time.Sleep(5 * time.Millisecond)
-			}
-			if time.Since(tMark) > 650*time.Millisecond {
-				o.HeldLate = true
-			}
-		}()
-	}
 	err = startReady(a)
 	close(daemonUp)
 	if err != nil {
@@ -493,6 +457,27 @@ func experiment(c *Ctx, dir string, sc scenario, cs *crashSpec, tag string) (*ob
 		return o, nil, daemonPid, nil
 	}
 	o.AtRestart = query(a.Sock, o.Unit)
+	if len(held) > 0 {
+		// the held runner goes on now that the new daemon has scanned the unit and answered.  The
+		// restarted daemon's monitor gives a unit it has just marked failed one second from its mark;
+		// if on an overloaded machine the runner's next rewrite comes later than that, this run is
+		// another situation than the one it is about: not judged (and tried again).
+		var tMark time.Time
+		if fi, err := os.Stat(filepath.Join(unitDir, "status")); err == nil {
+			tMark = fi.ModTime()
+		}
+		mark, _ := os.ReadFile(filepath.Join(unitDir, "status"))
+		release()
+		for t0 := time.Now(); time.Since(t0) < 5*time.Second; time.Sleep(5 * time.Millisecond) {
+			b, _ := os.ReadFile(filepath.Join(unitDir, "status"))
+			if len(b) > 0 && !bytes.Equal(b, mark) {
+				break
+			}
+		}
+		if bytes.Contains(mark, []byte("Pending at restart")) && time.Since(tMark) > 700*time.Millisecond {
+			o.HeldLate = true
+		}
+	}
 	lookAtResidents(a.Sock, o.Residents, true)
 	// follow the unit to its end
 	follow := o.RunnerUp || (sc.Kind == "remote-bound" && o.AtRestart.Started)
